@@ -31,6 +31,9 @@ func init() {
 			{ID: "C06.g", Title: "LOCK-CAS", Template: "T5+T8", MinInst: 10,
 				Rule: "every lock backend's Replace/Create carries its precondition and a failed conditional write is an error (as C05.b, C05.g): at most one instance can extend a given checkpoint",
 				Run:  func(c *Ctx) { c05b(c); c05g(c); c05d(c) }},
+			{ID: "C06.k", Title: "NO-RESTART", Template: "T1+T6", MinInst: 2,
+				Rule: "an instance that lost the CAS (or stopped for any reason) never sequences again from its stale in-memory tree: RunSequencer is not restarted on the same Log (as C17.l)",
+				Run:  c17l},
 			{ID: "C06.j", Title: "PUBLISH-ONLY-BY-WINNER", Template: "T1+T4+T6", MinInst: 3,
 				Rule: "the published checkpoint object is written only by a function that has just won the lock-store commit (Replace/Create success edge) and with the committed bytes (as C01.a, C01.b): an instance that loses, is stale, or is only starting up publishes nothing",
 				Run:  func(c *Ctx) { c01a(c); c01b(c) }},
